@@ -60,7 +60,8 @@ def gen_cli_tree(rng, i):
     files = []
     main = recs("M", rng.randint(1, 4))
     for a in range(ninc):
-        name = "inc/f%d.slt" % a
+        # sometimes a sibling with the same stem and another extension (temp-file names must not collide)
+        name = ("main.inc" if a == 0 else "main.part") if rng.random() < 0.4 else "inc/f%d.slt" % a
         body = recs("I%d" % a, rng.randint(0, 3))
         text = "\n".join(body) + ("\n" * rng.randint(0, 10) if rng.random() < 0.5 else "")
         if rng.random() < 0.15:
